@@ -545,6 +545,13 @@ func checkC02(c *Ctx) {
 		c02Traces(c, pool, bounds)
 	}
 
+	// the core counts every case as a validated trace; here only the runs Trace_Driver accepted are traces
+	c.mu.Lock()
+	acc, _ := c.ev.Coverage["traces_accepted_by_tlc"].(int64)
+	evs, _ := c.ev.Coverage["evaluations"].(int64)
+	c.ev.Coverage["traces_validated_against_impl"] = acc
+	c.ev.Coverage["vectors_replayed"] = evs - acc
+	c.mu.Unlock()
 	c.Set("exhaustive", true)
 	c.Set("bounds", bounds)
 	c.Set("rule", "A: one case per configuration emitted by TLC (rule list x files x values x selector roots), rendered with seeded concrete values; "+
@@ -849,6 +856,7 @@ func c02Traces(c *Ctx, pool *Pool, bounds map[string]any) {
 				acc = len(rest)
 			}
 			for _, it := range rest[:acc] {
+				c.Count("traces_accepted_by_tlc", 1)
 				c.Case("b:"+it.m.Prog+"\x00"+strings.Join(it.m.Sels, "\x00")+"\x00"+c02FilesKey(it.m.Files), len(it.tr) > 2)
 				c.Count("trace_events", int64(len(it.tr)))
 				if len(selfTest) < 25 && len(it.tr) > 12 && len(it.tr) < 400 {
